@@ -56,7 +56,7 @@ def dom(c, p):
     """Build the abstract molecule for job params p."""
     return build_mol(c, p["n"], alphabet=tuple(p.get("alphabet", ("C",))), K_m=p.get("K_m", 2), K_r=p.get("K_r", 1),
                      pinned=unpin(p.get("pinned")), mass_lo=p.get("mass_lo", 1), rad_lo=p.get("rad_lo", 1),
-                     fixed_bonds=p.get("bonds"), label_atoms=p.get("label_atoms"))
+                     fixed_bonds=p.get("bonds"), label_atoms=p.get("label_atoms"), rad_hi=p.get("rad_hi"))
 
 
 def relist(c, mol, p):
@@ -509,3 +509,43 @@ def same_dict(d1, d2):
     if sorted(d1) != sorted(d2):
         return False
     return all_([attr_eq(d1[k], d2[k]) for k in d1]) if d1 else True
+
+
+# ---------------------------------------------------------------------------
+# C05 S-formula: bond-less molecules over the full periodic table (Hill order vs grammar slots)
+
+def c05_formula(**p):
+    """Element subsets of size <= 3 from the 118 symbols (solver-forked choices, or pinned by the job),
+    counts from a small list; obligation: the emitted string passes REF-LAYOUT (Hill formula,
+    sentence of the grammar)."""
+    from ref.elements import SYMBOLS_BY_Z, Z_OF as ZZ
+    counts = p.get("counts", [1, 2])
+    k = p["k"]
+    first = p.get("first")            # e.g. ["C"] or ["C", "H"]: fixed leading elements
+    lo, hi = p.get("range", [0, 118])
+
+    def body(c):
+        from ref.tucan_ref import layout_problems
+        syms = list(first or [])
+        prev = -1
+        for i in range(k):
+            if i == 0:
+                j = lo + c.choice("s0", hi - lo)
+            else:
+                j = prev + 1 + c.choice(f"s{i}", 118 - prev - 1) if prev + 1 < 118 else None
+            if j is None:
+                c.assume(False)
+            prev = j
+            syms.append(SYMBOLS_BY_Z[j])
+        if len(set(syms)) != len(syms):
+            c.assume(False)
+        elements = []
+        for i, sym in enumerate(syms):
+            elements += [sym] * counts[c.choice(f"n{i}", len(counts))]
+        atoms = {i: {"element_symbol": e, "atomic_number": ZZ[e], "partition": 0} for i, e in enumerate(elements)}
+        s = ser(canon(T()["graph_from_molecule"](atoms, {})))
+        c.note("elements", syms)
+        c.note("tucan", s)
+        problems, _ = layout_problems(s, elements)
+        c.oblige("hill-formula-and-grammar", not problems, problems[:2])
+    return body
